@@ -69,6 +69,10 @@ func tbAppendLog(rec tbLogRec) {
 
 // stageMain: `harness -stage NAME <split|main|join> <metadata> <files> <journal>`
 func stageMain(args []string) {
+	if len(args) >= 1 && args[0] == "__sighelper" {
+		sigHelperMain(args[1:])
+		return
+	}
 	if len(args) != 5 {
 		fmt.Fprintln(os.Stderr, "stage mode: bad arguments", args)
 		os.Exit(64)
